@@ -84,6 +84,11 @@ class Run:
         self.last_outcome = None
         self.last_model = None
         self.cwd0 = os.getcwd()
+        # any other tempfile API the library might use also lands in the
+        # sandbox's (leak-checked) temp base
+        import tempfile
+        self._tempdir0 = tempfile.tempdir
+        tempfile.tempdir = self.sb.tmp
         self._pre = self._prev = None
         self.sched_digests = set()
         self.thread_yields = []
@@ -93,6 +98,8 @@ class Run:
             self.sb.apply_mutation(m)
 
     def close(self):
+        import tempfile
+        tempfile.tempdir = self._tempdir0
         try:
             os.chdir(self.cwd0)
         except OSError:
